@@ -355,7 +355,8 @@ def main(argv=None):
         'engine': 'symx (z3 %s): proxy-based symbolic execution of the real edzed code, DFS by re-execution'
                   % __import__('z3').get_version_string(),
         'inconclusive': inconclusive,
-        'known_findings_hit': [k[0].get('id') for k in known_hits],
+        'known_findings_hit': sorted({k[0].get('id') for k in known_hits}),
+        'known_finding_counterexamples': len(known_hits),
         'partial_run': bool(args.only),
     }
     extra = getattr(mod, 'extra_evidence', None)
